@@ -192,6 +192,26 @@ def link_inode(ctx):
     return obs
 
 
+def _emptiness_test(t):
+    """the test decides on whether X.linked_records is empty - in either polarity (`if not X.linked_records:`
+    release, or `if X.linked_records: continue` in front of the release), as truth value or through len()"""
+    if isinstance(t, ast.Attribute):
+        return t.attr == 'linked_records'
+    if isinstance(t, ast.UnaryOp) and isinstance(t.op, ast.Not):
+        return _emptiness_test(t.operand)
+    if isinstance(t, ast.BoolOp):
+        return any(_emptiness_test(v) for v in t.values)
+    if isinstance(t, ast.Compare):
+        for side in [t.left] + list(t.comparators):
+            if isinstance(side, ast.Call) and isinstance(side.func, ast.Name) and side.func.id == 'len' and len(side.args) == 1 and \
+                    _emptiness_test(side.args[0]):
+                return True
+            if isinstance(side, ast.Attribute) and side.attr == 'linked_records' and \
+                    any(isinstance(o, (ast.List, ast.Tuple)) and not o.elts for o in [t.left] + list(t.comparators)):
+                return True
+    return False
+
+
 @rule('SA-PAIR.unlink_release')
 @props('C07', 'C04', 'C11', 'C02')
 def unlink_release(ctx):
@@ -213,10 +233,8 @@ def unlink_release(ctx):
                         inodes_del.append(c)
         has_empty_test = False
         for node in ctx.own_nodes(fi):
-            if isinstance(node, (ast.If, ast.While)):
-                t = norm(node.test)
-                if 'linked_records' in t and ('not ' in t or 'len(' in t):
-                    has_empty_test = True
+            if isinstance(node, (ast.If, ast.While, ast.IfExp)) and _emptiness_test(node.test):
+                has_empty_test = True
         par = ctx.parents(fi)
 
         def in_rollback(node):
